@@ -393,8 +393,10 @@ def setup(tier):
     ic = wd.mod("watchdog.observers.inotify_c")
     ib = wd.mod("watchdog.observers.inotify_buffer")
     I, B = ic.Inotify, ib.InotifyBuffer
-    desc = vsched.instrument(line_modules=[], instr_functions=[I.close, I.read_events, I._close_resources, B.run,
-                                                              B.on_thread_stop, B.close])
+    desc = vsched.instrument(line_modules=[I, B], instr_functions=[(I, "close"), (I, "read_events"), (I, "_close_resources"),
+                                                                  (B, "run"), (B, "on_thread_stop"), (B, "close")],
+                             exclude=("Inotify.__init__", "Inotify._add_dir_watch", "Inotify._add_watch", "Inotify._parse_event_buffer",
+                                      "InotifyBuffer.__init__", "Inotify._raise_error"))
     hs = [CloseHarness(p, via) for p in (0, 1, 2) for via in ("buffer", "consumer")]
     return hs, desc
 
@@ -434,4 +436,4 @@ def run(ctx):
     q = ctx.tier == "quick"
     ctx.explore_many([(h, 2 if q else 3) for h in hs], cap=1_500_000 if q else 40_000_000, workers=fsops.fs_workers(ctx))
     ctx.explore_many([(h, 0) for h in fault_harnesses(ctx.tier)], cap=200_000, selftest=False, workers=fsops.fs_workers(ctx))
-    cycles_bfs(ctx, 6 if q else 12, 20000 if q else 400000)
+    cycles_bfs(ctx, 10 if q else 16, 20000 if q else 400000)
